@@ -313,20 +313,12 @@ def lines_end_in_trimesh(lines: np.ndarray, faces: np.ndarray) -> np.ndarray:
     area3 = v_dot_cross3d(c, a, d)
 
     eps = 1e-12
-    pass_through_boundary = (
-        (np.abs(area1) < eps) | (np.abs(area2) < eps) | (np.abs(area3) < eps)
+    # a vanishing area means that the line passes through that edge (or its extension):
+    # the line meets the facet (interior or boundary) iff the remaining areas agree in sign
+    signs = np.array(
+        [np.where(np.abs(area) < eps, 0, np.sign(area)) for area in (area1, area2, area3)]
     )
-    # print('pass_through_boundary:')
-    # print(pass_through_boundary)
-
-    area1 = np.sign(area1)
-    area2 = np.sign(area2)
-    area3 = np.sign(area3)
-    pass_through_inside = (area1 == area2) * (area2 == area3)
-    # print('pass_through_inside:')
-    # print(pass_through_inside)
-
-    pass_through = pass_through_boundary | pass_through_inside
+    pass_through = np.all(signs >= 0, axis=0) | np.all(signs <= 0, axis=0)
 
     # Part 3 ---------------------------
     result_cross = pass_through * plane_cross
